@@ -66,6 +66,9 @@ pub enum Policy {
     Random(u64),
     /// fail write call number i (counting every write call) with the fault; everything else accepted
     FailWriteAt(usize, Fault),
+    /// write call i accepts a single byte of a longer buffer, the NEXT write call fails with the fault (a device that fills up
+    /// in the middle of one logical write); everything else is accepted. When call i offers a single byte the fault comes at i+1 as well.
+    ShortThenFail(usize, Fault),
     /// fail the first flush
     FailFlush(ErrorKind),
     /// the first k flush calls return Interrupted (nothing is flushed by them)
@@ -198,6 +201,19 @@ impl Write for Sink {
             }
             Policy::FailWriteAt(i, f) => {
                 if call == i {
+                    match f {
+                        Fault::Err(k) => Outcome::Failed(k),
+                        Fault::Payload(w) => Outcome::FailedPayload(w),
+                        Fault::Zero => Outcome::Zero,
+                    }
+                } else {
+                    Outcome::Accepted(offered)
+                }
+            }
+            Policy::ShortThenFail(i, f) => {
+                if call == i {
+                    Outcome::Accepted(1)
+                } else if call == i + 1 {
                     match f {
                         Fault::Err(k) => Outcome::Failed(k),
                         Fault::Payload(w) => Outcome::FailedPayload(w),
